@@ -15,7 +15,7 @@ REFUSALS = {"unique", "ambiguous", "value", "notimpl", "assertion"}
 
 
 class Step:
-    __slots__ = ("op", "mop", "impl_res", "model_res", "problems", "oracles", "changed", "pre", "post", "n_nodes")
+    __slots__ = ("op", "mop", "impl_res", "model_res", "problems", "oracles", "changed", "pre", "post", "n_nodes", "src_obj", "tgt_obj", "new_objs")
 
     def as_dict(self):
         return dict(op=clean(self.op), model_op=clean(self.mop), impl=self.impl_res, model=self.model_res, problems=self.problems[:5],
@@ -65,6 +65,16 @@ class Runner:
             op["_bij"] = self.bij
         s.mop = world.model_op(op, self.impl)
         s.pre = self.snapshot()
+        s.src_obj = s.tgt_obj = None
+        try:
+            if "sp" in op and "st" in op:
+                s.src_obj = self.impl.node(op["st"], op["sp"])
+            elif op["op"] in ("w.addtree", "w.copy"):
+                s.src_obj = self.impl.trees[op["st"]].system_root
+            if "p" in op and "t" in op:
+                s.tgt_obj = self.impl.node(op["t"], op["p"])
+        except Exception:  # noqa
+            pass
         s.impl_res = self.impl.apply(op)
         s.post = self.snapshot()
         s.changed = s.pre != s.post
@@ -80,11 +90,18 @@ class Runner:
             s.problems.append(f"outcome: implementation {s.impl_res}, model {s.model_res}")
         s.oracles = {}
         s.n_nodes = 0
+        s.new_objs = []
+        if len(r["obs"]) != len(self.impl.trees):
+            s.problems.append(f"number of trees: implementation {len(self.impl.trees)}, model {len(r['obs'])}")
+            self.dead = True
+            self.log.append(clean(op))
+            return s
         for ti, mobs in enumerate(r["obs"]):
             before = set(self.bij.m2i)
             probs, _ = world.observe_and_match(self.impl, ti, mobs, self.bij, self.pool)
             for mid in set(self.bij.m2i) - before:
                 self.bij.tree_of[mid] = ti
+                s.new_objs.append(self.bij.m2i[mid])
             s.problems += [f"T{ti} {p}" for p in probs]
             t = self.impl.trees[ti]
             s.n_nodes += t.count
@@ -162,7 +179,7 @@ def random_op(rng, impl, ti, *, labels, malformed=0.1, typed=False, ops=None):
     paths = paths_of(t)
     allp = [[]] + paths
     mal = rng.random() < malformed
-    kinds = ops or ["add"] * 5 + ["shortcut"] * 2 + ["addnode"] * 2 + ["addtree", "move", "move", "move", "remove", "remove", "removechildren", "sort", "setdata", "setdata", "meta"]
+    kinds = ops or ["add"] * 5 + ["shortcut"] * 2 + ["addnode"] * 2 + ["addtree", "copykids", "move", "move", "move", "remove", "remove", "removechildren", "sort", "setdata", "setdata", "meta"]
     k = rng.choice(kinds)
     if not paths and k not in ("add", "addtree"):
         k = "add"
@@ -216,6 +233,14 @@ def random_op(rng, impl, ti, *, labels, malformed=0.1, typed=False, ops=None):
         if typed and rng.random() < 0.5:
             op["kind"] = impl.node(st, sp).kind
         return op
+    if k == "copykids":
+        st = rng.randrange(len(impl.trees))
+        sp_all = [[]] + paths_of(impl.trees[st])
+        sp = rng.choice(sp_all)
+        p = rng.choice(allp)
+        if st == ti and p[: len(sp)] == sp:
+            return random_op(rng, impl, ti, labels=labels, malformed=malformed, typed=typed, ops=["add"])
+        return {"op": "w.copykids", "t": ti, "p": p, "st": st, "sp": sp, "deep": rng.random() < 0.5, "tree_api": rng.random() < 0.7}
     if k == "addtree":
         if len(impl.trees) < 2:
             return random_op(rng, impl, ti, labels=labels, malformed=malformed, typed=typed, ops=["add"])
